@@ -364,7 +364,15 @@ pub fn gen_conn_ep(r: &mut Rng, id: u64, kind: Kind, base: u64, ep: Option<Endpo
         Some(e) => e,
         None => ep_for(r, id, v6),
     };
-    let link = if r.chance(1, 6) { Link::RawIp } else { Link::Ethernet };
+    let link = if r.chance(1, 6) {
+        Link::RawIp
+    } else if r.chance(1, 8) {
+        // MAC addresses whose bytes read like an IP header / a loopback family word
+        let x = [r.u8(), r.u8(), r.u8(), r.u8(), r.u8(), r.u8()];
+        pkt::lookalike_macs(r.below(6), x)
+    } else {
+        Link::Ethernet
+    };
     let mut s = Script::new(ep.clone(), link, r.u32(), r.u32());
     let tsc = r.u32();
     let tss = r.u32();
@@ -561,10 +569,16 @@ pub enum Runner {
 
 impl Runner {
     pub fn new(which: Which, cap: usize, with_db: bool) -> Runner {
+        Runner::with_tracker(which, cap, cap, with_db)
+    }
+    /// `tracker_cap`: capacity of the caller-supplied uptime tracker of the TCP analyzer's
+    /// per-packet entry (one entry per direction of a connection; it is the harness's table, not
+    /// part of the analyzer's configured connection capacity)
+    pub fn with_tracker(which: Which, cap: usize, tracker_cap: usize, with_db: bool) -> Runner {
         match which {
             Which::Tcp => Runner::Tcp(
                 huginn_net_tcp::HuginnNetTcp::new(if with_db { Some(db()) } else { None }, cap).expect("tcp analyzer"),
-                ttl_cache::TtlCache::new(cap),
+                ttl_cache::TtlCache::new(tracker_cap),
             ),
             Which::Http => Runner::Http(
                 huginn_net_http::HuginnNetHttp::new(if with_db { Some(db()) } else { None }, cap).expect("http analyzer"),
